@@ -6,7 +6,7 @@ import random
 import gen
 import parse
 import sem
-from common import build, log, NCPU, parallel_th, rundir, tlc, Broken
+from common import build, log, NCPU, parallel_th, run_th, rundir, tlc, Broken
 LEVEL = "exploration"
 
 
@@ -152,22 +152,48 @@ def run(chk):
     chk.add("mutated_program_inputs", len(mu))
     for i, x in enumerate(inputs):
         x["i"] = i
-    # run everything on the ASan/UBSan build (leaks reported at process exit), 1 GB stack per compilation
+    # run everything on the ASan/UBSan build (leaks reported at process exit), 1 GB stack per compilation.
+    # Work is bounded by input size x the 1024-pass budget, which under ASan can still mean minutes for a mutated macro set that
+    # happens to diverge; an input that exceeds the per-input watchdog there is therefore re-run on the plain build with a
+    # generous limit (x50 over the measured worst case) before it is called a hang.
+    th_plain = build("plain")
     events = {}
-    for recs, rc, err, part in parallel_th(tha, ["compile"], inputs, chunks=NCPU * 2, timeout=2400):
-        for x in recs:
-            if "ok" in x:
-                events[x["i"]] = x
-        if rc != 0:
+    slow = []
+    todo = list(inputs)
+    rounds = 0
+    while todo and rounds < 6:
+        rounds += 1
+        again = []
+        for recs, rc, err, part in parallel_th(tha, ["compile"], todo, chunks=NCPU * 2, timeout=3000):
+            for x in recs:
+                if "ok" in x:
+                    events[x["i"]] = x
+            if rc == 0:
+                continue
             begun = [x["begin"] for x in recs if "begin" in x]
             unfinished = [b for b in begun if b not in events]
             bad = inputs[unfinished[-1]] if unfinished else None
+            if rc == 75 and bad is not None:
+                slow.append(bad)
+                again += [x for x in part if x["i"] not in events and x["i"] != bad["i"]]
+                continue
             kind = ("timeout" if rc in (-9, 75) else "leak" if "LeakSanitizer" in err else
                     "sanitizer" if ("Sanitizer" in err or "runtime error" in err) else "crash")
             chk.violation("c02:abort:%s:%s" % (kind, json.dumps(bad, sort_keys=True)[:300] if bad else "chunk"),
                           "Theo::compile did not return normally (%s, exit %s) %s: %s"
                           % (kind, rc, ("on input %s" % json.dumps(bad)[:600]) if bad else "in a batch of %d inputs (reported at process exit)" % len(part),
                              err[-2500:]), {"kind": kind, "input": bad, "stderr": err[-5000:]})
+        todo = again
+    for bad in slow:
+        recs, rc, err = run_th(th_plain, ["compile"], [dict(bad, watch=1000)], timeout=1100)
+        got = next((x for x in recs if "ok" in x), None)
+        if got is not None and rc == 0:
+            events[bad["i"]] = got
+        else:
+            chk.violation("c02:abort:timeout:%s" % json.dumps(bad, sort_keys=True)[:300],
+                          "Theo::compile did not return within 120 s on the sanitizer build nor within 1000 s on the plain build (exit %s) on input %s"
+                          % (rc, json.dumps(bad)[:800]), {"kind": "timeout", "input": bad})
+    chk.add("inputs_slower_than_watchdog_on_sanitizer_build", len(slow))
     # TLC validates the result shapes (TheoIface!ResultOK), in parallel batches
     evs = []
     for i in sorted(events):
